@@ -360,6 +360,12 @@ C20_Names == {"echoTestReqID", "heartbeatOnIdle", "testRequestOnSilence", "disco
 C20_Fails(aux, o) == {c \in C20_Names : ~C20_Clause(c, aux, o)}
 C20_Step(aux, o) == C20_Fails(aux, o) = {}
 
+\* ------------------------------------------------------------------ C09 (session part)
+\* a session that received garbage still processes the next well-formed message: an in-sequence
+\* TestRequest in a logged-on state is answered (panics and hangs are detected by the driver)
+C09_Fails(aux, o) == {c \in {"stillProcesses"} : ~C20_Clause("echoTestReqID", aux, o)}
+C09_Step(aux, o) == C09_Fails(aux, o) = {}
+
 \* ------------------------------------------------------------------ C03
 RECURSIVE Contig(_, _, _)
 \* run[i..] starts at `at' and each message's coverage starts where the previous ended
